@@ -25,6 +25,7 @@ def run(chk):
                 if listings != prev:
                     chk.monitor_fail("a dial pinned to the wrong identity changed somebody's connected set: %s -> %s" % (prev, listings), dict(case=rec["scenario"][:2000], op_index=oi))
             prev = listings
+    dials_at_the_limit(chk)
     simnet.adversary_c03(chk)
     chk.assumptions += ["Ed25519 / TLS 1.3 / X.509 soundness (rustls, webpki, ring) is assumed; the model's unforgeability hypotheses are explicit premises of C03_impostor_rejected"]
     if not quick:
@@ -32,6 +33,41 @@ def run(chk):
         chk.extra["coqchk"] = "ok" if ok else out[-500:]
         if not ok:
             chk.broken.append("coqchk failed or reported axioms")
+
+
+def dials_at_the_limit(chk):
+    """A successful dial returns the identity of the party reached, and that party is in the caller's connected set when the
+    call returns - also when the caller is at (or over) its own connection limit, with or without an expected identity."""
+    scen, metas = [], []
+    for limit in (0, 1, 2):
+        for pinned in (False, True):
+            rng = chk.rng
+            cmds = ["seed=%d delay=%d" % (rng.randrange(1 << 30), rng.choice([200, 2000])),
+                    "node 0 key=10 name=n10 maxconn=%d ctimeout=500 idle=600000 keepalive=5000" % limit]
+            for j in range(1, limit + 2):
+                cmds.append("node %d key=%d name=n10 idle=600000 keepalive=5000" % (j, 10 + j))
+            for j in range(1, limit + 1):
+                cmds += ["connect %d 0" % j, "sleep 300"]
+            x = limit + 1
+            cmds += ["sub 0", "connect 0 %d%s" % (x, " pin=%d" % x if pinned else ""), "events 0", "peers 0", "sleep 300", "peers 0", "peers %d" % x,
+                     "rpc 0 %d id=a size=5" % x, "rpc %d 0 id=b size=5" % x]
+            scen.append("simnet " + " ; ".join(cmds))
+            metas.append((limit, pinned, x))
+    outs, parsed = simnet.run_scenarios(chk, scen, "fabric:dial-at-the-callers-limit")
+    for sc, res, (limit, pinned, x) in zip(scen, parsed, metas):
+        if res is None:
+            continue
+        chk.nontriv(sc)
+        cl = [c.strip() for c in sc[len("simnet "):].split(" ; ")][1:]
+        k = [i for i, c in enumerate(cl) if c.startswith("connect 0 ")][0]
+        r, ev, now, later, other = res[k], res[k + 1], res[k + 2], res[k + 4], res[k + 5]
+        if not r.startswith("ok %d " % x):
+            chk.monitor_fail("an explicit dial%s from a node at its connection limit (%d) returned %s" % (" naming the identity" if pinned else "", limit, r[:40]), dict(case=sc))
+        elif "listed=1" not in r or str(x) not in now.strip("[]").split(",") or "+%d" % x not in ev:
+            chk.monitor_fail("a dial%s from a node at its connection limit (%d) returned identity %d, but that party is not in the caller's connected set when the call returns (%s; listing %s; events %s)"
+                             % (" naming the identity" if pinned else "", limit, x, r[:40], now, ev), dict(case=sc))
+        elif str(x) not in later.strip("[]").split(",") or "0" not in other.strip("[]").split(",") or not res[k + 6].startswith("ok st=200") or not res[k + 7].startswith("ok st=200"):
+            chk.monitor_fail("after a successful dial from a node at its connection limit (%d): caller lists %s, callee lists %s, RPCs %s / %s" % (limit, later, other, res[k + 6][:20], res[k + 7][:20]), dict(case=sc))
 
 
 replay = __import__("c_c09").replay
